@@ -2,7 +2,9 @@
 """Regenerates /verif/MANIFEST.json from the table below (keeps it schema-valid)."""
 import json, os
 
-TB = ("Trusted: rustc's MIR for the analysed configuration (nightly ad3a598ca, -Zmir-opt-level=0), the transformer "
+TB = ("Analysed: every feature combination (std, alloc, neither; std+alloc and the builds without debug assertions "
+      "are compared with their counterparts byte for byte and analysed as further configurations when they differ). "
+      "Trusted: rustc's MIR for the analysed configuration (nightly ad3a598ca, -Zmir-opt-level=0), the transformer "
       "contracts for nom 7.1.3 / heapless 0.7.17 / core written from the pinned sources (DESIGN.md 2.4), and the "
       "reference tables under analysis/aislint/spec. Payloads shorter than 2^28 bytes.")
 
